@@ -28,7 +28,8 @@ FUEL = 60
 SHARD = 120
 RULE = ("stacks of 1-3 sibling scopes (parentless nodes / Workflow children / children of nested macros; 1-6 nodes per "
         "scope), forward data connections over three input channels (several connections per channel), optional "
-        "cyclic data (self edge, back edge -- also outside the target's reach), hand-made ran->run, "
+        "cyclic data (self edge, back edge -- also outside the target's reach), a node owned by ANOTHER workflow feeding the "
+        "closure (data connection crossing composites: refused, not siblings) or sitting outside it, hand-made ran->run, "
         "ran->accumulate_and_run and failed->run/accumulate_and_run connections in connection order, starting nodes, automate flag, executor flags, "
         "one failing node (every node of the would-be executed set in the thorough tier), already-failed nodes / "
         "parents; HISTORIES: the same pull 2-3 times with unchanged inputs and uncached observers wired to the target "
@@ -72,7 +73,7 @@ def F11(a=0, b=0, c=0, z=0, tag=""):
     return out
 
 
-_BUILD = {"case": None, "level": None, "scopes": None}
+_BUILD = {"case": None, "level": None, "scopes": None, "others": {}}
 
 
 @as_macro_node("out")
@@ -101,7 +102,13 @@ def _make_nodes(lv, parent, x):
             if i == 0 and x is not None:
                 kw["z"] = x
             nd = F11(**kw)
-            if parent is not None:
+            if i in L.get("foreign", []):
+                # owned by ANOTHER workflow: a data connection from it crosses composites
+                if lv not in _BUILD["others"]:
+                    from pyiron_workflow import Workflow
+                    _BUILD["others"][lv] = Workflow(f"other{lv}")
+                _BUILD["others"][lv].add_child(nd, label=lab)
+            elif parent is not None:
                 parent.add_child(nd, label=lab)
         nodes.append(nd)
     _BUILD["scopes"][lv] = (parent, nodes)
@@ -120,7 +127,7 @@ def build(case):
     from pyiron_workflow import Workflow
     levels = case["levels"]
     top = len(levels) - 1
-    _BUILD.update(case=case, level=top, scopes={})
+    _BUILD.update(case=case, level=top, scopes={}, others={})
     T = levels[top]
     if T["par"] == "wf":
         wf = Workflow("wf")
@@ -201,7 +208,11 @@ def snapshot(case, scopes, ordered):
             auto, pf = bool(parent.automate_execution), bool(parent.failed)
         else:
             auto, pf = bool(L["automate"]), bool(L["pfailed"])
-        out.append([rows, start, auto, pf])
+        keys = []       # what the owners list: [owner, key, label of the child under that key]
+        for who, comp in (("parent", parent), ("other", _BUILD["others"].get(lv))):
+            if comp is not None:
+                keys += [[who, str(k), str(ch.label)] for k, ch in comp.children.items()]
+        out.append([rows, start, auto, pf, sorted(keys)])
     return out
 
 
@@ -286,7 +297,9 @@ def _snap(case, scopes, ordered, sort_start):
 
 
 def model_view(case, obs):
-    return obs[:3] if isinstance(obs, list) and len(obs) in (5, 6) else obs
+    if not (isinstance(obs, list) and len(obs) in (5, 6)):
+        return obs
+    return [obs[0], obs[1], [lvl[:4] for lvl in obs[2]]]      # the owners' children keys are oracle-only
 
 
 # ---- model term --------------------------------------------------------------------------------
@@ -328,7 +341,8 @@ def scope_term(L):
             "(tbl [] " + cl(cl(f"({cn(r)}, {'IRun' if s == 'run' else 'IAcc'})" for r, s in x) for x in out) + ") "
             "(tbl [] []) "
             f"(tbl false {flags('exe')}) (tbl false {flags('bad')}) (tbl false {flags('failed')}) "
-            f"{par} {_natl(L['start'])} {cb(L['automate'])} {cb(L['pfailed'])})")
+            f"{par} {_natl(L['start'])} {cb(L['automate'])} {cb(L['pfailed'])} "
+            f"(tbl 0%nat {_natl(1 if i in L.get('foreign', []) else 0 for i in range(n))}))")
 
 
 def modelled(case):
@@ -411,6 +425,9 @@ def expectation(case):
         if any(v in L["exe"] for v in D):
             refusal = "ValueError"
             break
+        if any(v in L.get("foreign", []) for v in D):
+            refusal = "ValueError"        # "must all be siblings": a data connection crosses composites
+            break
         others = sorted(D - {k})
         if others:
             if L["par"] != "none" and _parent_failed(case, lv):
@@ -480,6 +497,12 @@ def _restored(case, before, after):
                             f"{rb[j]} before, {ra[j]} after")
         if b[1] != a[1]:
             return f"starting-nodes-not-restored: level {lv}: {b[1]} before, {a[1]} after"
+        if b[4] != a[4]:
+            return f"children-keys-changed: level {lv}: {b[4]} before, {a[4]} after"
+        for who, key, lab in a[4]:
+            if key != lab:
+                return (f"label-not-restored: level {lv}: the {who} composite lists a child under {key!r} "
+                        f"whose label is {lab!r}")
     return None
 
 
@@ -747,6 +770,25 @@ def variants(rng, levels, target, parents, thorough):
         hi = L["n"] if lv == 0 else L["comp"] + (1 if lv in pulled_levels(base) else 0)
         L["exe"] = sorted(rng.sample(range(hi), rng.randint(1, min(2, hi))))
         out.append(c)
+    # a node of another composite feeding the closure (refused: not siblings) or sitting outside it (no effect)
+    if rng.random() < 0.45:
+        c = cp()
+        lv = rng.choice(pulled_levels(base)) if rng.random() < 0.85 else rng.randrange(len(levels))
+        L = c["levels"][lv]
+        k = _head(base, lv)
+        D = _closure(L, k) or {k}
+        ok = [i for i in range(L["n"]) if i != k and i != L.get("comp")
+              and not (L["par"] == "macro" and i in (0, L["n"] - 1))]
+        inside = [i for i in ok if i in D]
+        pick = inside if (inside and rng.random() < 0.8) else ok
+        if pick:
+            f = rng.choice(pick)
+            L["foreign"] = [f]
+            L["sig"] = [sg for sg in L["sig"] if f not in (sg[0], sg[1])]
+            L["start"] = [i for i in L["start"] if i != f]
+            if rng.random() < 0.3:
+                L["bad"] = [f]
+            out.append(c)
     if rng.random() < 0.25:
         c = cp()
         lv = rng.randrange(len(levels))
@@ -860,8 +902,8 @@ def shrink_candidates(case):
     c = json.loads(json.dumps(case))
     levels = c["levels"]
     for lv, L in enumerate(levels):
-        for fld in ("sig", "data", "start", "exe", "bad", "failed"):
-            for i in range(len(L[fld])):
+        for fld in ("sig", "data", "start", "exe", "bad", "failed", "foreign", "nocache"):
+            for i in range(len(L.get(fld, []))):
                 d = json.loads(json.dumps(c))
                 del d["levels"][lv][fld][i]
                 yield d
@@ -872,7 +914,8 @@ def shrink_candidates(case):
         # drop the last node of a level when nothing refers to it
         last = L["n"] - 1
         used = (any(last in (u, v) for u, v, _ in L["data"]) or any(last in (sg[0], sg[1]) for sg in L["sig"])
-                or last in L["start"] + L["exe"] + L["bad"] + L["failed"] or L.get("comp") == last
+                or last in L["start"] + L["exe"] + L["bad"] + L["failed"] + L.get("foreign", []) + L.get("nocache", [])
+                or L.get("comp") == last
                 or (lv == 0 and c["target"] == last))
         if not used and L["n"] > (1 if lv == 0 else 2):
             d = json.loads(json.dumps(c))
